@@ -283,6 +283,14 @@ func c09Text(c *fw.Ctx, fam string, idx int, text string, viaCLI bool) {
 				break // several CPUs only for the long documents
 			}
 		}
+		// the same text piped through standard input prints the same
+		if len(rs) > 0 {
+			in := text
+			r := clidrv.Run(clidrv.Home("home-nobookmarks"), clidrv.Opts{Now: fixedNow, OSStdin: &in}, "print", "--no-style", "--no-warn")
+			if r.Panicked || r.Code != 0 || r.Stdout != want {
+				c.Violation("cli-print-stdin-differs", cs(), fmt.Sprintf("`klog print --no-style` with the text on standard input (exit %d, panic %v, err %q) printed\n%q\nbut the canonical form is\n%q", r.Code, r.PanicVal, r.Err, r.Stdout, want))
+			}
+		}
 		c.Outcome("ok-via-cli")
 	}
 }
